@@ -281,15 +281,19 @@ def pick_playback(text):
     """Kani prints one playback test per satisfied cover AND per failed check.  Return the
     values of the first test generated for a failed *spec clause* (never a cover's)."""
     blocks = re.split(r'(?=Concrete playback unit test for)', text)
-    for blk in blocks:
-        m = re.search(r'/// Check for `([^`]*)`: "([^\n]*)"', blk)
-        if not m or m.group(1) == "cover":
-            continue
-        if not SPEC_PREFIX.match(m.group(2).strip('"')):
-            continue
-        vals = E.parse_playback(blk)
-        if vals:
-            return vals
+    # first a failed spec clause; if none, a failed panic/overflow/bounds check inside the function under test
+    for spec_only in (True, False):
+        for blk in blocks:
+            m = re.search(r'/// Check for `([^`]*)`: "([^\n]*)"', blk)
+            if not m or m.group(1) == "cover":
+                continue
+            if spec_only and not SPEC_PREFIX.match(m.group(2).strip('"')):
+                continue
+            if not spec_only and TOOL_LIMIT.search(m.group(2)):
+                continue
+            vals = E.parse_playback(blk)
+            if vals:
+                return vals
     return None
 
 
@@ -406,6 +410,11 @@ def run(tier="quick"):
         for r in rows:
             k = res[r['h']]
             s_st, s_f, t_st, t_f = split_result(k)
+            if t_st == E.FAILED and s_st != E.UNDECIDED:
+                # a panic / overflow / out-of-bounds inside the function under test: on that input the function does
+                # not return at all, so its postcondition is not met either (the C04 .total obligation reports the same run)
+                s_st = E.FAILED
+                s_f = list(s_f) + ["function under test does not return normally: " + f for f in t_f]
             detail = "\n".join(s_f[:6]) or (k['raw'][-800:] if s_st == E.UNDECIDED else "")
             sha = meta['real_sha'] + ("+arm:" + meta['arm_sha'] if "comment" in r['h'] else "")
             obs.append(E.Obligation(r['id'], r['props'], UNIT, r['fn'], "kani/cbmc", s_st, detail, k['time_s'], LEX, sha,
